@@ -83,6 +83,16 @@ def inputs(tier):
     out.append(("late_fields", [{"id": 1}, {"id": 2, "b": 1, "a": 2, "c": 3}, {"id": 3, "zz": 1, "aa": 2}], None))
     out.append(("imports", [{"d": "2020-01-01", "t": "12:30", "dt": "2020-01-01T10:00:00", "i": "1", "f": "1.5", "b": "true", "l": [1], "o": None, "m": {"k1": 1},
                              "u": [1, "x"]}], [r"k\d"]))
+    # user-defined pseudo-types whose replacement relation is a chain without the transitive pair (resolve must reach a fixed point
+    # whatever order the relation is stored in); one field hits all three types
+    out.append(("chain_registry", {"__types__": list(pipeline.CHAIN_TYPES), "__roots__": {"Root": [{"mask": "0101", "n": "7"}, {"mask": "0777", "n": "ff"},
+                                                                                                {"mask": "ff", "n": "1"}, {"mask": "10", "n": "0"}]}}, None))
+    # several root models that share one nested model (3-5 roots): nested layout has to place the shared class relative to all its roots
+    owner = {"login": "x", "id": 1, "url": "u"}
+    for k in (3, 4, 5):
+        names = ["Repo", "Issue", "Gist", "Commit", "Pull"][:k]
+        out.append((f"shared_by_{k}_roots", {"__roots__": {n: [{"owner": dict(owner), f"{n.lower()}_id": 1, "title": "t" * (i + 1), f"f{i}": i, f"g{i}": [i]}]
+                                                          for i, n in enumerate(names)}}, None))
     out.append(("names", [{"author": {"n": 1, "x": 2}, "editor": {"n": 2, "x": 3}, "owner_user": {"n": 3, "x": 1}, "users": [{"n": 1, "x": 9}]}], None))
     return out
 
@@ -101,6 +111,14 @@ def configs(tier):
     return out
 
 
+def build_input(samples, dkr, merge):
+    """fresh pipeline for one input (single root, or {"__roots__": {name: samples}, "__types__": registry contents})"""
+    samples = json.loads(json.dumps(samples))
+    if isinstance(samples, dict) and "__roots__" in samples:
+        return pipeline.build_roots(samples["__roots__"], types=tuple(samples.get("__types__", pipeline.ALL_TYPES)), dkr=dkr, merge=merge)
+    return pipeline.build(samples, types=pipeline.ALL_TYPES, dkr=dkr, merge=merge)
+
+
 def batch(tier):
     """digest of every (input, configuration) in this process - run under one PYTHONHASHSEED"""
     res = {}
@@ -110,7 +128,7 @@ def batch(tier):
             if key.startswith("lit") and (layout == "nested" or merge != "default"):
                 continue
             try:
-                b = pipeline.build(json.loads(json.dumps(samples)), types=types, dkr=dkr, merge=merge)
+                b = build_input(samples, dkr, merge)
                 text = pipeline.render(b.reg, fw, layout)
             except Exception as e:
                 text = f"exc:{type(e).__name__}:{core.exc_site(e)}"
@@ -118,21 +136,40 @@ def batch(tier):
     return res
 
 
+def _layout_prelude(seed):
+    """"fresh processes" differ in more than the hash seed: object addresses (the hash of classes, pointers and every other object
+    without __hash__) depend on what was allocated before.  Every E4 process therefore starts with a seed-dependent amount of live
+    and freed allocations BEFORE the library is imported; replays of a seed use the same prelude."""
+    n = int(seed) % 89
+    return ("_n = %d; _keep = [type('P%%d' %% i, (), {}) for i in range(_n * 3)]; _holes = [bytearray(48 + 8 * (i %% 60)) for i in range(_n * 300)]; "
+            "del _holes[::2]; _objs = [object() for _ in range(_n * 7)]; del _objs[1::3]; " % n)
+
+
+def _no_aslr():
+    """preexec hook: switch address-space randomisation off for the child (personality ADDR_NO_RANDOMIZE), so that the object
+    addresses of an E4 process are a function of its seed-dependent prelude and a recorded divergence replays exactly"""
+    try:
+        import ctypes
+        ctypes.CDLL(None).personality(0x0040000)
+    except Exception:
+        pass
+
+
 def _run_batch(args):
     tier, seed = args
-    code = ("import sys, json; sys.path.insert(0, %r); from props import c06; json.dump(c06.batch(%r), sys.stdout)" % (core.VERIF, tier))
+    code = (_layout_prelude(seed) + "import sys, json; sys.path.insert(0, %r); from props import c06; json.dump(c06.batch(%r), sys.stdout)" % (core.VERIF, tier))
     env = dict(os.environ, PYTHONHASHSEED=str(seed))
-    p = subprocess.run([sys.executable, "-c", code], capture_output=True, text=True, env=env, cwd=core.VERIF, timeout=1800)
+    p = subprocess.run([sys.executable, "-c", code], capture_output=True, text=True, env=env, cwd=core.VERIF, timeout=1800, preexec_fn=_no_aslr)
     if p.returncode != 0:
         raise core.HarnessError(f"batch under seed {seed} failed: {p.stderr[-600:]}")
     return seed, json.loads(p.stdout)
 
 
 def text_under_seed(key, fw, layout, merge, seed, tier):
-    code = ("import sys, json; sys.path.insert(0, %r); from props import c06; sys.stdout.write(c06.one(%r, %r, %r, %r, %r))"
+    code = (_layout_prelude(seed) + "import sys, json; sys.path.insert(0, %r); from props import c06; sys.stdout.write(c06.one(%r, %r, %r, %r, %r))"
             % (core.VERIF, key, fw, layout, merge, tier))
     env = dict(os.environ, PYTHONHASHSEED=str(seed))
-    p = subprocess.run([sys.executable, "-c", code], capture_output=True, text=True, env=env, cwd=core.VERIF, timeout=300)
+    p = subprocess.run([sys.executable, "-c", code], capture_output=True, text=True, env=env, cwd=core.VERIF, timeout=300, preexec_fn=_no_aslr)
     if p.returncode != 0:
         raise core.HarnessError(p.stderr[-400:])
     return p.stdout
@@ -141,7 +178,7 @@ def text_under_seed(key, fw, layout, merge, seed, tier):
 def one(key, fw, layout, merge, tier):
     for k, samples, dkr in inputs(tier):
         if k == key:
-            b = pipeline.build(samples, types=pipeline.ALL_TYPES, dkr=dkr, merge=merge)
+            b = build_input(samples, dkr, merge)
             return pipeline.render(b.reg, fw, layout)
     raise KeyError(key)
 
